@@ -153,9 +153,10 @@ Example C19_ex_mkdirall :
   map fst (sftp_snapshot (sst_srv (fst (sftp_run sftp_init [(None, MkdirAll [47;100;47;101;47;103]%N 493)])))) =
   [[47;100]%N; [47;100;47;101]%N; [47;100;47;101;47;103]%N].
 Proof. vm_compute. reflexivity. Qed.
-(* the defect: MkdirAll "/f" on the regular file "/f" answers ok *)
+(* MkdirAll "/f" on the regular file "/f": an error since the fix of sftpfs/sftp.go (the unfixed
+   fast path answered ok: fs_mkdirall false, see C19_mkdirall_on_file_reports_ok) *)
 Example C19_ex_mkdirall_on_file :
-  snd (sftp_run sftp_init [(Some 0%nat, Create [47;102]%N); (None, MkdirAll [47;102]%N 493)]) = [RHandle 0; ROk].
+  snd (sftp_run sftp_init [(Some 0%nat, Create [47;102]%N); (None, MkdirAll [47;102]%N 493)]) = [RHandle 0; RErr (EW KENOTDIR)].
 Proof. vm_compute. reflexivity. Qed.
 (* a 70001-byte write goes out as three packets and is stored as one pwrite *)
 Example C19_ex_big :
